@@ -19,7 +19,11 @@ def member(rng, pname, kind):
         if not two:
             d.update({'params': [], 'id': None})
     else:
-        bad = rng.choice(['nomethodtype', 'badparams', 'badid', 'nojsonrpc', 'scalar'])
+        bad = rng.choice(['nomethodtype', 'badparams', 'badid', 'nojsonrpc', 'scalar', 'resultshape', 'errorshape'])
+        if bad in ('resultshape', 'errorshape'):     # looks like a response: no method
+            d['id'] = rng.choice(IDS)
+            d['result' if bad == 'resultshape' else 'error'] = 1 if bad == 'resultshape' else {'code': 1, 'message': 'm'}
+            return d
         if bad == 'scalar':
             return rng.choice([5, 'x', None, [1]])
         d.update({'method': 'm', 'id': rng.choice(IDS)})
@@ -75,7 +79,7 @@ class C02(Prop):
         for _ in range(n):
             pname = rng.choice(['v2', 'v2', 'loose', 'v1', 'auto'])
             ops, meta = [], []
-            mx = rng.choice([0, 0, 60, 90, 150])
+            mx = rng.choice([0, 0, 60, 90, 150, rng.randrange(40, 200), rng.randrange(40, 200)])
             ops.append(['set_max', mx])
             meta.append(None)
             if pname == 'auto':
@@ -89,6 +93,8 @@ class C02(Prop):
                 if pname != 'v1' and rng.random() < 0.7:
                     kinds = [rng.choice(['req', 'req', 'req', 'notif', 'bad']) for _ in range(rng.randrange(1, 8))]
                     ms = [member(rng, pname, k) for k in kinds]
+                    if all(isinstance(m, dict) and ('result' in m or 'error' in m) for m in ms):
+                        ms.append(member(rng, pname, 'req'))      # otherwise it is a response batch, not a request batch
                     ops.append(['receive', list(json.dumps(ms).encode())])
                     reqs = [m for m in ms if not invalid_for(pname, m) and m.get('id') is not None and 'id' in m]
                     nbad = sum(1 for m in ms if invalid_for(pname, m))
@@ -109,7 +115,7 @@ class C02(Prop):
                         nreq_total += 1
             rng.shuffle(pending)
             for idx, rid, b in pending:
-                size = rng.choice([1, 10, 40, 80, 200])
+                size = rng.choice([1, 10, 40, 80, 200, rng.randrange(1, 130), rng.randrange(1, 130), rng.randrange(1, 130)])
                 res = ['res', 'r' * size] if rng.random() < 0.7 else ['err', rng.choice([1, -32000]), 'e' * size]
                 ops.append(['send_result', idx, res])
                 meta.append({'kind': 'reply', 'id': rid, 'b': b, 'res': res})
